@@ -112,6 +112,9 @@ fn check_end_to_end(s: &str, slot: usize) -> Option<Failure> {
             &["palette", "palette", "active", "colorrole", "brush"],
         ),
     };
+    if slot >= 3 {
+        return check_palette_default(s, slot);
+    }
     let t = translate(&src, "T", Mode::Generate);
     let e = expected(s);
     let mk = |key: &str, what: String| {
@@ -178,6 +181,71 @@ fn check_end_to_end(s: &str, slot: usize) -> Option<Failure> {
     }
 }
 
+/// End-to-end through the palette's default roles (`palette.window: c`), which every colour group
+/// without an explicit role of its own inherits: each of the three groups must carry the role with
+/// the channels of the string it got (slot 4: the disabled group has its own, different colour).
+fn check_palette_default(s: &str, slot: usize) -> Option<Failure> {
+    let lit = js_string(s);
+    const OTHER: &str = "#80445566";
+    let role = ["window", "base", "text", "buttonText"][stable_hash(&s) as usize % 4];
+    let role_name = { let mut c = role.chars(); let f = c.next().unwrap().to_ascii_uppercase(); format!("{f}{}", c.as_str()) };
+    let src = if slot == 3 {
+        format!("import qmluic.QtWidgets\nQWidget {{ palette.{role}: {lit} }}\n")
+    } else {
+        format!("import qmluic.QtWidgets\nQWidget {{ palette.{role}: {lit}; palette.disabled.{role}: \"{OTHER}\" }}\n")
+    };
+    let t = translate(&src, "T", Mode::Generate);
+    let mk = |key: &str, what: String| {
+        Some(Failure {
+            key: key.into(),
+            what,
+            detail: json!({"string": s, "qml": src, "ui": t.ui_str(), "diagnostics": t.diag_summary(), "panic": t.panic}),
+        })
+    };
+    if let Some(p) = &t.panic {
+        return mk("c19-e2e-panic", format!("translator panicked: {p}"));
+    }
+    let Some((r, g, b, a)) = expected(s) else {
+        if t.accepted() {
+            return mk("c19-e2e-accepts-invalid", format!("invalid colour {s:?} accepted as a palette default role"));
+        }
+        if !t.errors().any(|d| src[d.start.min(src.len())..d.end.min(src.len())].contains(&lit)) {
+            return mk("c19-e2e-no-diagnostic", format!("no error diagnostic covering the colour literal {s:?}"));
+        }
+        return None;
+    };
+    if !t.accepted() {
+        return mk("c19-e2e-rejects-valid", format!("valid colour {s:?} rejected as a palette default role"));
+    }
+    let f = match form::decode(t.ui.as_deref().unwrap()) {
+        Ok(f) => f,
+        Err(err) => return mk("c19-e2e-bad-xml", format!("cannot decode .ui: {err}")),
+    };
+    let Some(p) = f.root.prop("palette") else { return mk("c19-e2e-missing", "property palette missing".into()) };
+    let FValue::Other(el) = p.value.clone() else { return mk("c19-e2e-missing", "value is not structured".into()) };
+    let pal = if el.name == "palette" { el.clone() } else {
+        match el.first("palette") { Some(c) => c.clone(), None => return mk("c19-e2e-missing", "<palette> missing".into()) }
+    };
+    for group in ["active", "inactive", "disabled"] {
+        let want = if slot == 4 && group == "disabled" { (0x44u8, 0x55u8, 0x66u8, 0x80u8) } else { (r, g, b, a) };
+        let Some(gr) = pal.first(group) else { return mk("c19-e2e-missing", format!("<{group}> missing")) };
+        let roles: Vec<_> = gr.elems_named("colorrole").filter(|c| c.attr("role") == Some(role_name.as_str())).collect();
+        if roles.len() != 1 {
+            return mk("c19-e2e-missing", format!("<{group}> has {} colorrole elements for {role_name}", roles.len()));
+        }
+        let Some(color) = roles[0].first("brush").and_then(|b| b.first("color")) else {
+            return mk("c19-e2e-missing", format!("<{group}>: <brush><color> missing"));
+        };
+        let num = |n: &str| color.first(n).map(|e| e.text());
+        let got = (num("red"), num("green"), num("blue"), color.attr("alpha").map(|s| s.to_owned()));
+        let want_s = (Some(want.0.to_string()), Some(want.1.to_string()), Some(want.2.to_string()), Some(want.3.to_string()));
+        if got != want_s {
+            return mk("c19-e2e-wrong-channels", format!("colour {s:?} as default role {role}: group {group} has {got:?}, expected {want_s:?}"));
+        }
+    }
+    None
+}
+
 fn case_variant(word: &str, mask: u64) -> String {
     word.chars()
         .enumerate()
@@ -223,7 +291,7 @@ pub fn replay(v: &Value) -> Outcome {
     if let Some(f) = check_string(s) {
         return Outcome { verdict: Verdict::Fail(f), nontrivial: None, sample: None, counters: vec![] };
     }
-    for slot in 0..3 {
+    for slot in 0..5 {
         if let Some(f) = check_end_to_end(s, slot) {
             return Outcome { verdict: Verdict::Fail(f), nontrivial: None, sample: None, counters: vec![] };
         }
@@ -325,8 +393,8 @@ pub fn run(env: &Env, known: &Known, started: Instant, replayed: u64, replay_vio
             2 => { ch.label("e2e-transparent"); "transparent".to_owned() }
             _ => near_miss(ch),
         };
-        let slot = ch.below(3);
-        ch.label(["e2e-QColor", "e2e-QBrush", "e2e-palette"][slot]);
+        let slot = ch.below(5);
+        ch.label(["e2e-QColor", "e2e-QBrush", "e2e-palette", "e2e-palette-default-role", "e2e-palette-default-and-group"][slot]);
         match check_end_to_end(&s, slot) {
             Some(f) => Outcome { verdict: Verdict::Fail(f), nontrivial: None, sample: None, counters: vec![] },
             None => Outcome::pass(Some(stable_hash(&(&s, slot)))).with_sample(ch.want_sample.then(|| json!({"string": s, "slot": slot, "expected_rgba": format!("{:?}", expected(&s))}))),
@@ -337,7 +405,7 @@ pub fn run(env: &Env, known: &Known, started: Instant, replayed: u64, replay_vio
 
     let ev = Evidence {
         env, pid: PID, level: "exploration",
-        rule: "every #rgb and #argb string (16^3 + 16^4 digit strings, each in lower, upper and one mixed letter case) is enumerated; every SVG keyword and 'transparent' in lower/upper/capitalised plus sampled (thorough: all 2^len for len<=16) case masks; #rrggbb/#aarrggbb sampled; near misses from 16 families; a sample goes end to end through QColor, QBrush and palette bindings and is decoded from the .ui. Oracle: decoder written from the statement + committed 147-keyword table. Non-trivial = string with an upper-case letter, a 4/8-digit string with alpha != ff, or any near miss; distinct by string.",
+        rule: "every #rgb and #argb string (16^3 + 16^4 digit strings, each in lower, upper and one mixed letter case) is enumerated; every SVG keyword and 'transparent' in lower/upper/capitalised plus sampled (thorough: all 2^len for len<=16) case masks; #rrggbb/#aarrggbb sampled; near misses from 16 families; a sample goes end to end through QColor, QBrush, palette group roles and palette default roles (inherited by all three groups, with and without an explicit role in one group) and is decoded from the .ui. Oracle: decoder written from the statement + committed 147-keyword table. Non-trivial = string with an upper-case letter, a 4/8-digit string with alpha != ff, or any near miss; distinct by string.",
         assumptions: vec![
             "the committed keyword table (data/svg_colors.json, extracted from two unrelated copies that agree row by row) is the SVG 1.1 table Qt uses".into(),
             "'transparent' is matched case-insensitively like the keywords (Qt keeps it in the same table)".into(),
